@@ -61,4 +61,227 @@ def tables_c01(out, notes):
     notes.append("compile_checks_node_uuids: TABULATED by running FlowParser._compile_flow on two nodes with one uuid / two uuids")
 
 
-GENERATORS = [tables_c01]
+# ------------------------------------------------------------------------------------------------------------
+# How FlowParser READS rows: padding edges, has_group conditions.  Behavioural probes on the current tree: small
+# flows are parsed by FlowParser.parse() (no container validation) and the objects it built are inspected.
+
+EDGE_COLS = ["from", "condition.value", "condition.variable", "condition.type", "condition.name"]
+
+
+def parse_probe_flow(rows, width=2):
+    """rows: dicts with row_id, type, edges (list of dicts over EDGE_COLS, padded with blanks to `width`), and other
+    cells.  -> ('ok', FlowContainer) | ('critical', message) | ('crash', exception name)"""
+    import tablib
+    from rpft.parsers.creation.flowparser import FlowParser
+    from rpft.rapidpro.models.containers import RapidProContainer
+
+    class Stop(logging.Handler):
+        def emit(self, record):
+            if record.levelno >= logging.CRITICAL:
+                raise SystemExit(record.getMessage())
+
+    headers = ["row_id", "type"] + [f"edges.{i + 1}.{c}" for i in range(width) for c in EDGE_COLS] + ["message_text", "node_name"]
+    data = []
+    for r in rows:
+        cells = {"row_id": r.get("row_id", ""), "type": r["type"], "message_text": r.get("message_text", ""), "node_name": r.get("node_name", "")}
+        for i in range(width):
+            e = r["edges"][i] if i < len(r["edges"]) else {}
+            for c in EDGE_COLS:
+                cells[f"edges.{i + 1}.{c}"] = e.get(c, "")
+        data.append([cells[h] for h in headers])
+    lg = logging.getLogger("main")
+    h = Stop()
+    lg.handlers.insert(0, h)
+    try:
+        fp = FlowParser(RapidProContainer(), "probe", table=tablib.Dataset(*data, headers=headers))
+        try:
+            return ("ok", fp.parse(add_to_container=False))
+        except SystemExit as e:
+            return ("critical", str(e))
+        except Exception as e:
+            return ("crash", type(e).__name__)
+    finally:
+        lg.handlers.remove(h)
+
+
+def node_by_text(flow, text):
+    for n in flow.nodes:
+        for a in n.actions:
+            if getattr(a, "text", None) == text:
+                return n
+    raise Refuse(f"probe flow has no node with the message {text!r}")
+
+
+def padding_probes():
+    """per row type: does a blank padding edge (all edges.2.* cells blank) of a row of that type act as an unconditional
+    edge from the preceding row?  -> {row type: True (applied) | False (dropped)}"""
+    S = dict
+    m1 = S(row_id="1", type="send_message", edges=[{"from": "start"}], message_text="one")
+    m2 = S(row_id="2", type="send_message", edges=[{"from": "1"}], message_text="two")
+    out = {}
+
+    def dest_of_two(rows):
+        r = parse_probe_flow(rows)
+        if r[0] != "ok":
+            raise Refuse(f"padding probe does not parse: {r!r}")
+        return node_by_text(r[1], "two").get_exits()[0].destination_uuid, r[1]
+
+    # an ordinary row: padding was never read as an edge (else every rectangular sheet would be mis-wired)
+    d, f = dest_of_two([m1, m2, S(row_id="3", type="send_message", edges=[{"from": "1"}], message_text="three")])
+    out["send_message"] = d is not None
+    d, f = dest_of_two([m1, m2, S(row_id="", type="hard_exit", edges=[{"from": "1"}])])
+    out["hard_exit"] = d is not None
+    # row 2 leads back to row 1; a loose_exit row from row 1 with a padding edge would cut that
+    d, f = dest_of_two([m1, m2, S(row_id="", type="go_to", edges=[{"from": "2"}], message_text="1"),
+                        S(row_id="", type="loose_exit", edges=[{"from": "1"}])])
+    out["loose_exit"] = d is None
+    d, f = dest_of_two([m1, m2, S(row_id="", type="go_to", edges=[{"from": "1"}], message_text="1")])
+    out["go_to"] = d is not None
+    d, f = dest_of_two([m1, m2, S(row_id="n", type="no_op", edges=[{"from": "1"}]),
+                        S(row_id="3", type="send_message", edges=[{"from": "n"}], message_text="three")])
+    out["no_op"] = d is not None
+    d, f = dest_of_two([m1, m2, S(row_id="B", type="begin_block", edges=[{"from": "1"}]),
+                        S(row_id="b", type="send_message", edges=[{}], message_text="three"), S(row_id="", type="end_block", edges=[{}])])
+    out["begin_block"] = d is not None
+    # a row merged into the node of row 1 through the node name: with the padding read as a second edge it is rejected
+    r = parse_probe_flow([dict(m1, node_name="nn"), S(row_id="2", type="send_message", edges=[{"from": "1"}], message_text="two", node_name="nn")])
+    if r[0] == "ok":
+        out["merged row"] = False
+    elif r[0] == "critical" and "exactly one unconditional incoming edge" in r[1]:
+        out["merged row"] = True
+    else:
+        raise Refuse(f"padding probe (merged row): unexpected outcome {r!r}")
+    return out
+
+
+def has_group_probes():
+    """the arguments of the case compiled from an edge with condition type has_group and value 'grp', per kind of source
+    row -> {source: list of arguments}"""
+    S = dict
+    cond = {"condition.value": "grp", "condition.type": "has_group"}
+    sheets = {
+        "wait_for_response": [S(row_id="1", type="wait_for_response", edges=[{"from": "start"}]),
+                              S(row_id="2", type="send_message", edges=[dict(cond, **{"from": "1"})], message_text="two")],
+        "split_by_value": [S(row_id="1", type="split_by_value", edges=[{"from": "start"}], message_text="@fields.x"),
+                           S(row_id="2", type="send_message", edges=[dict(cond, **{"from": "1"})], message_text="two")],
+        "action row": [S(row_id="1", type="send_message", edges=[{"from": "start"}], message_text="one"),
+                       S(row_id="2", type="send_message", edges=[dict(cond, **{"from": "1"})], message_text="two")],
+        "split_by_group": [S(row_id="1", type="split_by_group", edges=[{"from": "start"}], message_text="grp;"),
+                           S(row_id="2", type="send_message", edges=[{"from": "1", "condition.value": "grp"}], message_text="two")],
+        "no_op": [S(row_id="1", type="send_message", edges=[{"from": "start"}], message_text="one"),
+                  S(row_id="n", type="no_op", edges=[{"from": "1"}]),
+                  S(row_id="2", type="send_message", edges=[dict(cond, **{"from": "n", "condition.variable": "@contact.groups"})], message_text="two")],
+    }
+    out = {}
+    for what, rows in sheets.items():
+        r = parse_probe_flow(rows, width=1)
+        if r[0] != "ok":
+            raise Refuse(f"has_group probe ({what}) does not parse: {r!r}")
+        cases = [k for n in r[1].nodes if getattr(n, "router", None) is not None for k in getattr(n.router, "cases", [])]
+        if len(cases) != 1 or cases[0].type != "has_group":
+            raise Refuse(f"has_group probe ({what}): expected exactly one has_group case, got {[(k.type, k.arguments) for k in cases]!r}")
+        out[what] = list(cases[0].arguments)
+    return out
+
+
+def shared_constant(plugin, fn_name, const):
+    """the value another translator plugin emits for `const` (the shared probes padding_edges_dropped_at_read of
+    tables_flowread.py and has_group_edges_by_name of tables_c04.py select the behaviour of Comp/Compile.v)"""
+    import importlib
+    tmp = []
+    getattr(importlib.import_module(plugin), fn_name)(tmp, [])
+    for line in tmp:
+        if line.startswith(f"Definition {const} : bool := "):
+            return line.rstrip(".").endswith("true")
+    raise Refuse(f"{plugin} does not emit {const}")
+
+
+def tables_rows_read(out, notes):
+    """Comp/Compile.v reads rows with the SHARED constants padding_edges_dropped_at_read (tables_flowread.py, probed on
+    a no_op row) and has_group_edges_by_name (tables_c04.py, probed on a wait_for_response row).  The compiler model
+    applies them to every row type / to every row that is not a group split: that is checked here, row type by
+    row type, fail-closed.  One constant is emitted: has_group_by_name_from_noop (NoOpNodeGroup.add_exit)."""
+    try:
+        pad = padding_probes()
+    except Refuse:
+        raise
+    except Exception as e:
+        raise Refuse(f"cannot probe how FlowParser reads padding edges: {type(e).__name__}: {e}")
+    if pad.pop("send_message"):
+        raise Refuse("a blank padding edge of an ordinary row is read as an edge")
+    dropped = shared_constant("tables_flowread", "tables_flowread", "padding_edges_dropped_at_read")
+    wrong = {k: v for k, v in pad.items() if v == dropped}
+    if wrong:
+        raise Refuse(f"padding_edges_dropped_at_read = {dropped}, but blank padding edges are "
+                     f"{'applied' if dropped else 'dropped'} by rows of type {sorted(wrong)}: Comp/Compile.v has no mirror for that")
+    try:
+        hg = has_group_probes()
+    except Refuse:
+        raise
+    except Exception as e:
+        raise Refuse(f"cannot probe how has_group conditions are compiled: {type(e).__name__}: {e}")
+    by_name, by_arg0 = [None, "grp"], ["grp"]
+    if hg.pop("split_by_group") != by_name:
+        raise Refuse("a split_by_group row no longer compiles its cases as [None, group name]")
+    noop = hg.pop("no_op")
+    if noop not in (by_name, by_arg0):
+        raise Refuse(f"unexpected arguments of a has_group case compiled from an edge leaving a no_op decision: {noop!r}")
+    named = shared_constant("tables_c04", "tables_c04", "has_group_edges_by_name")
+    wrong = {k: v for k, v in hg.items() if v != (by_name if named else by_arg0)}
+    if wrong:
+        raise Refuse(f"has_group_edges_by_name = {named}, but a has_group condition is compiled to {wrong!r}: "
+                     "Comp/Compile.v has no mirror for that")
+    out.append(f"Definition has_group_by_name_from_noop : bool := {coq_bool(noop == by_name)}.")
+    notes.append("has_group_by_name_from_noop: TABULATED by parsing a probe sheet with a has_group condition on an edge leaving a no_op "
+                 "decision and reading the case's arguments; padding_edges_dropped_at_read / has_group_edges_by_name CHECKED for go_to, no_op, "
+                 "hard_exit, loose_exit, begin_block, merged rows / wait_for_response, split_by_value, action rows")
+
+
+def tables_names(out, notes):
+    """explicit_names_claimed: does an explicit category name claim its name (the repair of the finding category-name-clash)?
+    Behavioural probe on SwitchRouter.add_choice: (1) an unnamed test 'yes' (its category gets the invented name 'Yes'), then a
+    test 'yeah' with the explicit name 'Yes': one category with both tests (the invented category is re-used: false) or two
+    categories, the invented one renamed (true); (2) a test with the explicit name 'Other' (the default category's): re-targets the
+    default category (false) or is refused with a RapidProRouterError (true); (3) the same for 'No Response' on a router with a
+    timeout.  The three answers must agree; anything else is a Refuse."""
+    try:
+        from rpft.rapidpro.models.exceptions import RapidProRouterError
+        from rpft.rapidpro.models.routers import SwitchRouter
+
+        r1 = SwitchRouter("@input.text", wait_timeout=0)
+        r1.add_choice("@input.text", "has_any_word", ["yes"], None, "d1")
+        r1.add_choice("@input.text", "has_any_word", ["yeah"], "Yes", "d2")
+        cats = [(c.name, c.exit.destination_uuid) for c in r1.categories]
+        case_cats = [k.category_uuid for k in r1.cases]
+        if len(cats) == 1 and cats[0] == ("Yes", "d2") and case_cats[0] == case_cats[1]:
+            a1 = False
+        elif len(cats) == 2 and cats[0][1] == "d1" and cats[1] == ("Yes", "d2") and cats[0][0] != "Yes" and case_cats[0] != case_cats[1]:
+            a1 = True
+        else:
+            raise Refuse(f"explicit category name equal to an invented one: categories {cats!r}")
+
+        def reserved(name, timeout):
+            r = SwitchRouter("@input.text", wait_timeout=timeout)
+            try:
+                r.add_choice("@input.text", "has_any_word", ["x"], name, "d9")
+            except RapidProRouterError:
+                return True
+            target = r.default_category if name == "Other" else r.no_response_category
+            if r.categories == [] and target.exit.destination_uuid == "d9" and r.cases[0].category_uuid == target.uuid:
+                return False
+            raise Refuse(f"explicit category name {name!r}: categories {[(c.name, c.exit.destination_uuid) for c in r.get_categories()]!r}")
+
+        a2, a3 = reserved("Other", 0), reserved("No Response", 60)
+    except Refuse:
+        raise
+    except Exception as e:
+        raise Refuse(f"cannot probe SwitchRouter.add_choice on explicit category names: {type(e).__name__}: {e}")
+    if not (a1 == a2 == a3):
+        raise Refuse(f"explicit category names: invented-name clash claimed={a1}, 'Other' refused={a2}, 'No Response' refused={a3}: "
+                     "Comp/Compile.v has no mirror for a mixture")
+    out.append(f"Definition explicit_names_claimed : bool := {coq_bool(a1)}.")
+    notes.append("explicit_names_claimed: TABULATED by SwitchRouter.add_choice with an explicit category name equal to an invented name / "
+                 "'Other' / 'No Response'")
+
+
+GENERATORS = [tables_c01, tables_rows_read, tables_names]
